@@ -61,7 +61,11 @@ impl ClockHandle {
 		// store 0 as the current time so any reads that happen
 		// immediately after a stop don't errantly get the previous
 		// clock time
+		#[cfg(kira_verif)]
+		crate::verif::yield_point("clock.handle.stop.ticks.store");
 		self.shared.ticks.store(0, Ordering::SeqCst);
+		#[cfg(kira_verif)]
+		crate::verif::yield_point("clock.handle.stop.fraction.store");
 		self.shared
 			.fractional_position
 			.store(0.0f64.to_bits(), Ordering::SeqCst);
